@@ -285,16 +285,41 @@ def extract_rows(df, inst) -> list:
     return events
 
 
+VARIANTS = ('plain', 'float', 'index', 'recycled')
+
+
 def record_instance(item):
     """Run the real sample_and_merge once on an instance (seeded) -> inst event, row events, and the
-    per-row values of GenerateModel.get_logit() for both utility families."""
+    per-row values of GenerateModel.get_logit() for both utility families.
+    variant: 'plain'; 'float' = id and choice columns of dtype float; 'index' = tables with non-default
+    (reversed / repeated) index labels; 'recycled' = the table is generated, then read back through
+    sample_and_merge(recycle=True) and the re-read table is the one recorded."""
     import numpy as np
+    import pandas as pd
     from biogeme.sampling_of_alternatives import ChoiceSetsGeneration, GenerateModel
 
-    inst, seed = item
+    inst, seed = item[0], item[1]
+    variant = item[2] if len(item) > 2 else 'plain'
     np.random.seed(seed % (2**32))
-    ctx = build_context(inst, 'a')
-    db = ChoiceSetsGeneration(ctx).sample_and_merge(recycle=False)
+    alternatives = pd.DataFrame({'alt_id': [a[0] for a in inst['alts']], 'a': [a[1] for a in inst['alts']],
+                                 'c': [a[2] for a in inst['alts']]})
+    individuals = pd.DataFrame({'choice': [i[0] for i in inst['inds']], 'x': [i[1] for i in inst['inds']]})
+    if variant == 'float':
+        alternatives['alt_id'] = alternatives['alt_id'].astype(float)
+        individuals['choice'] = individuals['choice'].astype(float)
+    elif variant == 'index':
+        alternatives.index = [100 - 3 * i for i in range(len(alternatives))]
+        individuals.index = [7 * (i // 2) for i in range(len(individuals))][::-1]
+    ctx = build_context(inst, 'a', individuals=individuals, alternatives=alternatives)
+    gen = ChoiceSetsGeneration(ctx)
+    db = gen.sample_and_merge(recycle=False)
+    note = ''
+    if variant == 'recycled':
+        db2 = gen.sample_and_merge(recycle=True)
+        same = (list(db2.data.columns) == list(db.data.columns) and len(db2.data) == len(db.data)
+                and bool(np.array_equal(db2.data.to_numpy(dtype=float), db.data.to_numpy(dtype=float))))
+        note = '' if same else 'recycled-differs'
+        db = db2
     try:
         os.remove(ctx.biogeme_file_name)
     except OSError:
@@ -304,13 +329,13 @@ def record_instance(item):
         raise MachineryError('number of generated rows differs from the number of individuals')
     lik = {}
     for fam in FAMS:
-        c = ctx if fam == 'a' else build_context(inst, fam)
+        c = ctx if fam == 'a' else build_context(inst, fam, individuals=individuals, alternatives=alternatives)
         lp = GenerateModel(c).get_logit()
         lik[fam] = [float(v) for v in lp.get_value_c(database=db, prepare_ids=True)]
     iev = dict(kind='inst', alts=inst['alts'], strata=inst['strata'], hasmev=inst['hasmev'])
     if inst['hasmev']:
         iev['mev'] = inst['mev']
-    return dict(inst=iev, rows=rows, lik=lik, seed=seed)
+    return dict(inst=iev, rows=rows, lik=lik, seed=seed, variant=variant, note=note)
 
 
 # --------------------------------------------------------------------------- input validation
